@@ -39,7 +39,15 @@ var c12plan = msgsPlan{
 	// honest requests of M whose answer by the victim cannot be delivered (fails at once / blocks)
 	Undeliv: true,
 	// both ends of a virtual channel collude against the hub
-	HubPair:     true,
+	HubPair: true,
+	// suspected defects of the unchanged tree (reported by reading): the matching proposal arrives when
+	// the hub's wait ends; a stray update response naming the virtual channel's id before the settlement
+	Edge: true,
+	Extra: []extraScenario{
+		{Name: "hub-settle/M/hubsettle/stray-rej-virtual-id+hubsettle/valid"},
+		{Name: "hub-settle/M/hubsettle/stray-acc-virtual-id+hubsettle/valid"},
+		{Name: "hub-settle/M/hubsettle/stray-rej-virtual-id-from-stranger+hubsettle/valid"},
+	},
 	PairPoints:  []string{"open-v1", "sub-v0"},
 	InflightPts: []string{"open-v1"},
 	InflightCats: map[string]bool{"proposal": true, "proposal-c12": true, "update": true, "vfund": true, "vsettle": true,
